@@ -78,6 +78,10 @@ def run_property(prop_id: str, tier: str, root: str, seed: int, replay: str | No
         from .selftest import run_corpus
 
         selfval = run_corpus(prop_id, root, seed)
+        from .twins import run_twins
+
+        tw = run_twins(prop_id, root, sorted(col.scope_functions), seed=seed)
+        selfval.update(tw)
         extra["self_validation"] = selfval
     for f in violations:
         p = write_replay(prop_id, f, root)
@@ -105,9 +109,11 @@ def run_property(prop_id: str, tier: str, root: str, seed: int, replay: str | No
                 f"{prop_id}: self-validation: {selfval['killed']}/{selfval['breaking_variants']} breaking variants detected, "
                 f"{selfval['benign_silent']}/{selfval['benign_variants']} benign twins silent"
             )
-    if selfval and (selfval["killed"] < selfval["breaking_variants"] or selfval["benign_silent"] < selfval["benign_variants"]):
+    if selfval and not quiet:
+        print(f"{prop_id}: self-validation: {selfval.get('rename_twins', 0)} rename twins, {selfval.get('rename_twin_alarms', 0)} alarms")
+    if selfval and (selfval["killed"] < selfval["breaking_variants"] or selfval["benign_silent"] < selfval["benign_variants"] or selfval.get("rename_twin_alarms", 0)):
         # the checker itself is not behaving as specified on the current tree: analysis broken
-        print(f"ANALYSIS-ERROR property={prop_id} self-validation failed: {selfval.get('failures')}")
+        print(f"ANALYSIS-ERROR property={prop_id} self-validation failed: {selfval.get('failures')} {selfval.get('alarms')}")
         return 2
     return 1 if violations else 0
 
